@@ -209,6 +209,9 @@ func c15Units(tier string, seed int64) []Unit {
 	// progress is shared by them), for three shapes of recursion
 	for _, shape := range []string{"Deferred(OneOf(Just,Custom(self)))", "Custom(self) through a package-level variable", "OneOf(Just,Map(Deferred(self)))"} {
 		shape := shape
+		if quick && shape != "OneOf(Just,Map(Deferred(self)))" {
+			continue // every level of a Custom function adds a dozen scheduling points (about 50 s per shape): thorough tier
+		}
 		units = append(units, Unit{Name: "C15/deep-recursion-in-flight/" + shape, Run: func(c *Ctx) {
 			mk := func() *rapid.Generator[int] {
 				var self *rapid.Generator[int]
